@@ -993,6 +993,8 @@ class Interp:
     def e_Subscript(self, n, env):
         base = self.eval(n.value, env)
         idx = self.eval_index(n.slice, env)
+        if isinstance(base, ObjV) and getattr(base, "tuple_fields", None) and all(f in base.fields for f in base.tuple_fields):
+            base = ListV(items=tuple(base.fields[f] for f in base.tuple_fields), kind="tuple")  # NamedTuple instance indexed like a tuple
         return self.ops.subscript(base, idx, n, env)
 
     def eval_index(self, s, env):
